@@ -114,6 +114,7 @@ def evaluate(ctx, cases):
         side = 'trough' if c['center'] == 'peak' else 'peak'; cen = 'peak' if c['center'] == 'peak' else 'trough'
         w = _window(c, df, fs, n)
         xlim = None if w is None else (w[0] / fs, w[1] / fs)
+        if xlim is not None and (w[0] + w[1]) % 3 == 0: xlim = [np.float64(xlim[0]), np.float64(xlim[1])]       # (a list of numpy floats instead of a tuple of python floats)
         times = np.arange(0, n / fs, 1 / fs)
         if w is None: lo, hi = 0, n - 1
         else:
